@@ -309,3 +309,4 @@ MANIFEST = {
             'lexicographic orders used by the documented criteria.',
 }
 MANIFEST['text'] += (' ' + 'An exhaustive sweep covers two students with two usable projects each at every pair of ranks up to 6/7, every clash pattern and three id layouts; shapes: contention (capacity-one projects), long lists with few students, ids >= 10, capacities exactly filled by first choices under heavy ties.')
+MANIFEST['text'] += (' ' + '6% of the cases are load-conflict instances (least maximum and least total lecturer deviation on different matchings); brute-force solves are given drawn time limits (0, 1e-6, 5, 3600), which must not matter; the thorough tier enumerates the complete universe of 2 students x 2 projects x 2 lecturers (294 912 instances).')
